@@ -122,6 +122,8 @@ Definition pCmd (fuel : nat) (name : nat) : P (@cmd term) :=
   | 38 => dop a <- pNat; dop p <- pTarg; dop t <- pTarg; pret (CAccumulate a p t)
   | 39 => dop a <- pNat; pret (CAccResult a)
   | 40 => dop sp <- pInitSpec; dop sh <- pList pZ; pret (CInit sp sh)
+  | 42 => dop t <- pNat; dop u <- pTarg; pret (CDot t u)
+  | 43 => dop t <- pNat; dop u <- pTarg; pret (CMatMul t u)
   | _ => pret CNop
   end%Z.
 
